@@ -8,6 +8,7 @@ package main
 import (
 	"fmt"
 	"go/types"
+	"os"
 	"sort"
 	"strings"
 
@@ -105,6 +106,8 @@ type l2Registry struct {
 	prot       map[string]map[string]bool // location -> mutexes held at every access seen so far (nil: none seen)
 	writers    map[string]map[int]bool    // location -> threads that write it
 	syncMap    map[string]bool            // maps that model a sync.Map (operations are atomic, never racy)
+	shapeGen   map[string]map[string]int  // value-chain generation of each shape (see noteGenWrite)
+	maxWrites  map[string]map[int]int     // location -> thread -> max stores on one path
 	pubAtSpawn map[string]bool            // objects captured by a goroutine and written afterwards: shared from the go statement on
 	noFuse     bool
 	changed    bool
@@ -114,7 +117,7 @@ type l2Registry struct {
 func newRegistry() *l2Registry {
 	return &l2Registry{mutable: map[string]bool{}, shapes: map[string][]*Shape{}, shapeIdx: map[string]map[string]int{},
 		mapKeys: map[string][]mapKeyRec{}, mapKeyIx: map[string]map[string]int{}, objType: map[string]types.Type{}, locKind: map[string]string{},
-		prot: map[string]map[string]bool{}, writers: map[string]map[int]bool{}, syncMap: map[string]bool{}, pubAtSpawn: map[string]bool{}}
+		prot: map[string]map[string]bool{}, writers: map[string]map[int]bool{}, syncMap: map[string]bool{}, shapeGen: map[string]map[string]int{}, maxWrites: map[string]map[int]int{}, pubAtSpawn: map[string]bool{}}
 }
 
 func (r *l2Registry) note(what string) {
@@ -245,6 +248,8 @@ type threadRec struct {
 	heldW    map[string]int
 	heldR    map[string]int
 	nSpawned int
+	genRead  map[string]int
+	nWrites  map[string]int
 }
 
 func (t *threadRec) key() string {
@@ -797,19 +802,36 @@ func (e *Engine) evLoad(fr *frame, c *Cell) Value {
 	if len(shapes) > 1 {
 		op.ShapeP = e.newPlaceholder(BV(8))
 		e.assume(e.tb.Cmp("<", IntTy{8, false}, op.ShapeP, e.tb.BVConst(uint64(len(shapes)), 8)))
-		si = len(shapes) - 1
-		for i := 0; i < len(shapes)-1; i++ {
+		allowed := e.allowedShapes(loc, shapes)
+		si = allowed[len(allowed)-1]
+		chosen := false
+		for _, i := range allowed[:len(allowed)-1] {
 			if e.branch(e.tb.Eq(op.ShapeP, e.tb.BVConst(uint64(i), 8))) {
 				si = i
+				chosen = true
 				break
 			}
 		}
-		if si == len(shapes)-1 {
+		if !chosen {
 			e.assume(e.tb.Eq(op.ShapeP, e.tb.BVConst(uint64(si), 8)))
 		}
 	}
 	op.ShapeI = si
 	sh := shapes[si]
+	if os.Getenv("SYMGO_DEBUGSHAPES") != "" && len(shapes) > 1 {
+		kinds := map[string]bool{}
+		for _, x := range shapes {
+			kinds[x.Kind] = true
+		}
+		if len(kinds) > 1 && (kinds["scalar"] || kinds["str"]) {
+			fmt.Fprintf(os.Stderr, "MIXED shapes cfg=%s snap=%s cur=%s at %s:", e.ev.setupKey, e.describe(e.ev.setupSnap[c.ID]), e.describe(c.V), loc)
+			for _, x := range shapes {
+				fmt.Fprintf(os.Stderr, " %s", x.Key())
+			}
+			fmt.Fprintln(os.Stderr)
+		}
+	}
+	e.noteGenRead(loc, sh)
 	for _, s := range sh.leafSorts(nil) {
 		op.Leaves = append(op.Leaves, e.newPlaceholder(s))
 	}
@@ -892,8 +914,16 @@ func (e *Engine) evStore(fr *frame, c *Cell, v Value) {
 	}
 	e.initialShape(loc, c)
 	sh, leaves := e.flatten(v)
+	if os.Getenv("SYMGO_DEBUGSHAPES") != "" {
+		for _, x := range e.ev.reg.shapes[loc] {
+			if (x.Kind == "scalar") != (sh.Kind == "scalar") {
+				fmt.Fprintf(os.Stderr, "KINDCHANGE %s: had %s, store of %s at %s cfg=%s snap=%v\n", loc, x.Key(), sh.Key(), e.posOf(fr), e.ev.setupKey, e.describe(e.ev.setupSnap[c.ID]))
+			}
+		}
+	}
 	si := e.ev.reg.addShape(loc, sh)
 	e.ev.reg.addWriter(loc, e.ev.cur.id)
+	e.noteGenWrite(loc, sh)
 	e.emitOp(microOp{Kind: "store", Loc: loc, Shape: sh, Leaves: leaves, ShapeI: si, Pos: e.posOf(fr)})
 	c.V = e.copyVal(v) // keep the thread's own view (used when it is the only writer)
 	e.cacheSet(loc, e.copyVal(v))
@@ -1279,10 +1309,20 @@ func (e *Engine) evRunThreads(fr *frame) {
 		}
 	}
 	e.trackCells = false
+	ev.setupKey = decString(e.decisions)
+	if ev.run != nil {
+		rg := ev.run.regs[ev.setupKey]
+		if rg == nil {
+			rg = newRegistry()
+			rg.changed = true
+			ev.run.regs[ev.setupKey] = rg
+		}
+		ev.reg = rg
+		ev.run.reg = rg
+	}
 	if ev.options["nofuse"] {
 		ev.reg.noFuse = true
 	}
-	ev.setupKey = decString(e.decisions)
 	ev.setupPC = append([]*Term{}, e.pc...)
 	ev.setupClasses = append([]classRec{}, e.classes...)
 	if ev.run != nil {
@@ -1461,4 +1501,75 @@ func (e *Engine) capturedWrite(c *Cell) {
 		e.ev.reg.note("captured object written after go: " + root)
 	}
 	panic(restartExploration{"captured variable " + root + " is written after the go statement"})
+}
+
+// ---- value-chain bound (see l2Registry.shapeGen) ----
+
+func (e *Engine) noteGenRead(loc string, sh *Shape) {
+	t := e.ev.cur
+	if t.genRead == nil {
+		t.genRead = map[string]int{}
+	}
+	g := e.ev.reg.shapeGen[loc][sh.Key()]
+	if g > t.genRead[loc] {
+		t.genRead[loc] = g
+	}
+	if _, ok := t.genRead[loc]; !ok {
+		t.genRead[loc] = g
+	}
+}
+
+func (e *Engine) noteGenWrite(loc string, sh *Shape) {
+	t := e.ev.cur
+	reg := e.ev.reg
+	if t.nWrites == nil {
+		t.nWrites = map[string]int{}
+	}
+	t.nWrites[loc]++
+	mw := reg.maxWrites[loc]
+	if mw == nil {
+		mw = map[int]int{}
+		reg.maxWrites[loc] = mw
+	}
+	if t.nWrites[loc] > mw[t.id] {
+		mw[t.id] = t.nWrites[loc]
+		reg.note(fmt.Sprintf("writes to %s by T%d: %d", loc, t.id, t.nWrites[loc]))
+	}
+	g := 1
+	if r, ok := t.genRead[loc]; ok {
+		g = r + 1
+	}
+	sg := reg.shapeGen[loc]
+	if sg == nil {
+		sg = map[string]int{}
+		reg.shapeGen[loc] = sg
+	}
+	if old, ok := sg[sh.Key()]; !ok || g < old {
+		sg[sh.Key()] = g
+		if ok {
+			reg.note(fmt.Sprintf("generation of a shape of %s lowered to %d", loc, g))
+		}
+	}
+}
+
+// allowedShapes returns the indices of the shapes a reader may see (never empty).
+func (e *Engine) allowedShapes(loc string, shapes []*Shape) []int {
+	reg := e.ev.reg
+	bound := 0
+	for _, n := range reg.maxWrites[loc] {
+		bound += n
+	}
+	var out []int
+	for i, sh := range shapes {
+		g, written := reg.shapeGen[loc][sh.Key()]
+		if !written || bound == 0 || g <= bound {
+			out = append(out, i)
+		}
+	}
+	if len(out) == 0 {
+		for i := range shapes {
+			out = append(out, i)
+		}
+	}
+	return out
 }
